@@ -24,8 +24,25 @@
 //! the chain displays as `ierr<its own kind>:<serial>`, so the `pred=` predicate classifies whatever error it is
 //! handed by that error's OWN kind. `inner_done` / the rendered result name the head (the error the service
 //! returned); the causes are reported in a `#chain <c> <k> <J>I…>` meta line. The model classifies the head only.
+//!
+//! Construction paths and accessors (entry-point round, `notes/strengthen-reconnect-w5.md`):
+//! header `ctor=builder|new|default|with_defaults|layerdefault` (`ReconnectConfig::builder()`, `ReconnectConfigBuilder::new()`,
+//! `ReconnectLayer::new(ReconnectConfig::default())`, `ReconnectLayer::with_defaults()`, `ReconnectLayer::default()`; the last
+//! three ignore every other configuration word), `cclone=1` (layer value 0 is made from a CLONE of the configuration value),
+//! `pred=conn` (`.connection_errors_only()`), `unit=us` (d/init/cap/tbl are microseconds), `jv=1` with `policy=jitter rf=0`
+//! (the real `ReconnectPolicy::exponential_random(.., 0.0)` variant instead of the spy), `cb=1|panic` (`on_reconnect` /
+//! `on_state_change` callbacks that log `#cb …` meta lines, and then panic).
+//! `arrive … lay=<j>`: the request is made through layer value j; j >= 1 is built lazily as
+//! `ReconnectLayer::new(config.clone())` from the retained configuration value and has its own `ReconnectState`.
+//! `via=layerclone`: a service made by a clone of the layer value taken now (shares the layer's state).
+//! Probes (all take `lay=<j>`; `by=layer|svc` reads through `ReconnectLayer::state()` / `ReconnectService::state()` instead
+//! of the kept observer): `probe state`, `probe attempts`, `probe since` (`time_since_connected()`), `manual incr`
+//! (`increment_attempts()`, logged as `probe incr = n`), `probe config` (`ReconnectService::config()` and the accessors
+//! `max_attempts()/retry_on_reconnect()/policy()`), `probe delay a=<n>` (`config().policy().delay_for_attempt(n)`, ns),
+//! `probe pred k=<kind>` (`config().should_reconnect(&error of that kind)`). The scripted error kinds 4..15 carry a text
+//! after `ierr<kind>:<serial>` (`kind_text`), which is what `connection_errors_only()` looks at.
 use crate::world::*;
-use std::collections::{HashMap, VecDeque};
+use std::collections::{BTreeMap, HashMap, VecDeque};
 use std::future::Future;
 use std::pin::Pin;
 use std::sync::{Arc, Mutex};
@@ -33,17 +50,52 @@ use std::task::{Context, Poll};
 use std::time::Duration;
 use tower::{Layer, Service};
 use tower_resilience_reconnect::{
-    ConnectionState, ExponentialRandomBackoff, IntervalFunction, ReconnectConfig, ReconnectLayer,
+    ConnectionState, ExponentialRandomBackoff, IntervalFunction, ReconnectConfig, ReconnectConfigBuilder, ReconnectLayer,
     ReconnectPolicy, ReconnectService, ReconnectState,
 };
 
+/// one layer value with the adapter's own service handle made by it
+struct Lay {
+    layer: ReconnectLayer,
+    svc: ReconnectService<Chained>,
+    /// the wrapped service of this layer value; every service made by the layer value wraps a clone of it (one backend:
+    /// one readiness script, one recovery)
+    base: Inner,
+}
+
 pub struct Adapter {
-    /// `None` once `manual dropsvc` has dropped every handle
-    svc: Option<ReconnectService<Chained>>,
-    layer: Option<ReconnectLayer>,
-    state: ReconnectState,
+    /// layer value j -> layer and service; emptied by `manual dropsvc` (every handle dropped)
+    lays: BTreeMap<usize, Lay>,
+    /// the configuration value further layer values are made from (`ReconnectLayer::new(config.clone())`); dropped by dropsvc
+    config: Option<ReconnectConfig>,
+    gone: bool,
+    /// layer value j -> the `ReconnectState` handle an application keeps to watch the connection (survives dropsvc)
+    observers: BTreeMap<usize, ReconnectState>,
     /// scripted cause chains of the requests' inner calls (not a service handle: a script, like `Req::plan`)
     chains: Chains,
+    /// header `rdy=<chars>` / `rec=<ms>`: readiness behaviour of the wrapped service of every layer value (strict `Inner`:
+    /// after a call `poll_ready` is pending for `rec` ms on every instance; outside that, successive `poll_ready` calls
+    /// consume the script: 'e' = readiness error, anything else = ready); neither given: always ready, as before
+    readiness: Option<(String, u64)>,
+}
+
+/// text of the scripted error kinds after `ierr<kind>:<serial>` (mirrored in `TR.Reconnect.kindText` and gen/reconnect.py)
+pub fn kind_text(kind: u8) -> &'static str {
+    match kind {
+        4 => "Broken pipe (os error 32)",
+        5 => "Connection reset by peer (os error 104)",
+        6 => "connection aborted",
+        7 => "Transport endpoint is not connected (os error 107)",
+        8 => "Connection refused (os error 111)",
+        9 => "connection timed out",
+        10 => "disconnected",
+        11 => "BROKEN PIPE",
+        12 => "connection  reset",
+        13 => "host unreachable",
+        14 => "upstream said: Connection Refused",
+        15 => "brokenpipe",
+        _ => "",
+    }
 }
 
 /// The scripted inner error with a scripted `source()` chain.
@@ -61,7 +113,11 @@ impl CErr {
 impl std::fmt::Display for CErr {
     fn fmt(&self, f: &mut std::fmt::Formatter<'_>) -> std::fmt::Result {
         // the error's own kind only, like `IErr`: a wrapper that does not repeat its cause's text
-        write!(f, "ierr{}:{}", self.kind, self.v)
+        write!(f, "ierr{}:{}", self.kind, self.v)?;
+        match kind_text(self.kind) {
+            "" => Ok(()),
+            t => write!(f, " {}", t),
+        }
     }
 }
 impl std::error::Error for CErr {
@@ -121,7 +177,11 @@ impl Service<Req> for Chained {
     type Error = CErr;
     type Future = ChainFut;
     fn poll_ready(&mut self, cx: &mut Context<'_>) -> Poll<Result<(), CErr>> {
-        self.inner.poll_ready(cx).map_err(|e| CErr::new(e.kind, e.v, &[]))
+        self.inner.poll_ready(cx).map_err(|e| {
+            // the inner service failed a readiness poll (of a caller, or of a call future after its back-off)
+            log("ready_err".into());
+            CErr::new(e.kind, e.v, &[])
+        })
     }
     fn call(&mut self, req: Req) -> ChainFut {
         let c = req.c;
@@ -130,10 +190,10 @@ impl Service<Req> for Chained {
     }
 }
 
-struct Table(Vec<u64>);
+struct Table(Vec<Duration>);
 impl IntervalFunction for Table {
     fn next_interval(&self, attempt: usize) -> Duration {
-        Duration::from_millis(self.0[attempt % self.0.len()])
+        self.0[attempt % self.0.len()]
     }
 }
 
@@ -146,49 +206,164 @@ impl IntervalFunction for Spy {
     }
 }
 
-impl Adapter {
-    pub fn new(kv: &Kv) -> Adapter {
-        let ms = |k: &str, d: u64| Duration::from_millis(kv.u64(k, d));
-        let policy = match kv.str("policy", "exp").as_str() {
-            "none" => ReconnectPolicy::none(),
-            "fixed" => ReconnectPolicy::fixed(ms("d", 10)),
-            "jitter" => ReconnectPolicy::Custom(Arc::new(Spy(
-                ExponentialRandomBackoff::new(ms("init", 100), kv.u64("rf", 50) as f64 / 100.0)
-                    .multiplier(2.0)
-                    .max_interval(ms("cap", 5000)),
-            ))),
-            "custom" => {
-                let mut t: Vec<u64> =
-                    kv.str("tbl", "1").split(',').filter_map(|x| x.parse().ok()).collect();
-                if t.is_empty() {
-                    t.push(1);
-                }
-                ReconnectPolicy::Custom(Arc::new(Table(t)))
+fn policy_of(kv: &Kv) -> ReconnectPolicy {
+    // `unit=us`: the header's durations are microseconds
+    let us = kv.get("unit") == Some("us");
+    let dur = move |n: u64| if us { Duration::from_micros(n) } else { Duration::from_millis(n) };
+    let ms = |k: &str, d: u64| dur(kv.u64(k, d));
+    match kv.str("policy", "exp").as_str() {
+        "none" => ReconnectPolicy::none(),
+        "fixed" => ReconnectPolicy::fixed(ms("d", 10)),
+        // the real randomised variant; its delay cannot be observed from outside, so only with factor 0
+        "jitter" if kv.u64("jv", 0) == 1 => ReconnectPolicy::exponential_random(ms("init", 100), ms("cap", 5000), 0.0),
+        "jitter" => ReconnectPolicy::Custom(Arc::new(Spy(
+            ExponentialRandomBackoff::new(ms("init", 100), kv.u64("rf", 50) as f64 / 100.0)
+                .multiplier(2.0)
+                .max_interval(ms("cap", 5000)),
+        ))),
+        "custom" => {
+            let mut t: Vec<Duration> =
+                kv.str("tbl", "1").split(',').filter_map(|x| x.parse().ok()).map(dur).collect();
+            if t.is_empty() {
+                t.push(dur(1));
             }
-            _ => ReconnectPolicy::exponential(ms("init", 100), ms("cap", 5000)),
-        };
-        let mut b = ReconnectConfig::builder()
-            .policy(policy)
-            .retry_on_reconnect(kv.u64("retry", 1) != 0);
-        b = match kv.opt_u64("max") {
-            Some(m) => b.max_attempts(m as u32),
-            None => b.unlimited_attempts(),
-        };
-        if let Some(p) = kv.get("pred") {
+            ReconnectPolicy::Custom(Arc::new(Table(t)))
+        }
+        _ => ReconnectPolicy::exponential(ms("init", 100), ms("cap", 5000)),
+    }
+}
+
+fn state_name(s: ConnectionState) -> &'static str {
+    match s {
+        ConnectionState::Connected => "connected",
+        ConnectionState::Disconnected => "disconnected",
+        ConnectionState::Reconnecting => "reconnecting",
+    }
+}
+
+/// the configuration value, through the builder the header names
+fn config_of(kv: &Kv) -> ReconnectConfig {
+    let mut b = match kv.str("ctor", "builder").as_str() {
+        "default" | "with_defaults" | "layerdefault" => return ReconnectConfig::default(),
+        "new" => ReconnectConfigBuilder::new(),
+        _ => ReconnectConfig::builder(),
+    };
+    if kv.str("policy", "exp") == "default" {
+        return ReconnectConfig::default();
+    }
+    // only what the header names is set; everything else is left to the builder's defaults (exponential 100 ms .. 5 s,
+    // unlimited attempts, retry, no predicate)
+    if kv.get("policy").is_some() {
+        b = b.policy(policy_of(kv));
+    }
+    if let Some(r) = kv.opt_u64("retry") {
+        b = b.retry_on_reconnect(r != 0);
+    }
+    b = match kv.opt_u64("max") {
+        Some(m) => b.max_attempts(m as u32),
+        // `unl=1`: a limit is set and taken back
+        None if kv.u64("unl", 0) == 1 => b.max_attempts(7).unlimited_attempts(),
+        None => b,
+    };
+    match kv.get("pred") {
+        Some("conn") => b = b.connection_errors_only(),
+        Some(p) => {
             let kinds: Vec<u8> = p.bytes().filter(|b| b.is_ascii_digit()).map(|b| b - b'0').collect();
             // the predicate receives `&dyn Error` without `'static`, so it cannot downcast; like the
-            // crate's own examples it classifies by the Display text (`ierr<kind>:<serial>`)
+            // crate's own examples it classifies by the Display text (`ierr<kind>:<serial>…`)
             b = b.reconnect_predicate(move |e| {
                 let s = e.to_string();
-                let kind = s.strip_prefix("ierr").and_then(|r| r.split(':').next()).and_then(|k| k.parse::<u8>().ok());
+                let kind = s
+                    .strip_prefix("ierr")
+                    .and_then(|r| r.split(':').next())
+                    .and_then(|k| k.parse::<u8>().ok());
                 matches!(kind, Some(k) if kinds.contains(&k))
             });
         }
-        // `policy=default`: the layer exactly as `ReconnectLayer::default()` builds it (C14 end to end)
-        let layer = if kv.str("policy", "exp") == "default" { ReconnectLayer::default() } else { ReconnectLayer::new(b.build()) };
-        let state = layer.state().clone();
+        None => {}
+    }
+    // callbacks are observers: they log meta lines (not compared), `cb=panic` then panics
+    if let Some(cb) = kv.get("cb") {
+        let boom = cb == "panic";
+        b = b
+            .on_reconnect(move |a| {
+                log_raw(format!("#cb reconnect {}", a));
+                if boom {
+                    panic!("scripted callback panic");
+                }
+            })
+            .on_state_change(move |f, t| {
+                log_raw(format!("#cb state {} {}", state_name(f), state_name(t)));
+                if boom {
+                    panic!("scripted callback panic");
+                }
+            });
+    }
+    b.build()
+}
+
+impl Adapter {
+    pub fn new(kv: &Kv) -> Adapter {
         let chains: Chains = Default::default();
-        Adapter { svc: Some(layer.layer(Chained { inner: Inner::new(), chains: chains.clone() })), layer: Some(layer), state, chains }
+        // layer value 0
+        let layer = match kv.str("ctor", "builder").as_str() {
+            "with_defaults" => ReconnectLayer::with_defaults(),
+            // `policy=default`: the layer exactly as `ReconnectLayer::default()` builds it (C14 end to end)
+            "layerdefault" => ReconnectLayer::default(),
+            _ if kv.str("policy", "exp") == "default" && kv.get("ctor").is_none() => ReconnectLayer::default(),
+            _ if kv.u64("cclone", 0) == 1 => {
+                // the layer gets a clone of the configuration value; the original is dropped at once
+                let original = config_of(kv);
+                let copy = original.clone();
+                drop(original);
+                ReconnectLayer::new(copy)
+            }
+            _ => ReconnectLayer::new(config_of(kv)),
+        };
+        let readiness = if kv.get("rdy").is_some() || kv.get("rec").is_some() {
+            Some((kv.str("rdy", ""), kv.u64("rec", 0)))
+        } else {
+            None
+        };
+        let mut a = Adapter { lays: BTreeMap::new(), config: Some(config_of(kv)), gone: false, observers: BTreeMap::new(), chains, readiness };
+        a.install(0, layer);
+        a
+    }
+    fn install(&mut self, j: usize, layer: ReconnectLayer) {
+        self.observers.insert(j, layer.state().clone());
+        let base = match &self.readiness {
+            Some((script, rec)) => Inner::strict_rec(script, *rec, true),
+            None => Inner::new(),
+        };
+        let svc = layer.layer(Chained { inner: base.clone(), chains: self.chains.clone() });
+        self.lays.insert(j, Lay { layer, svc, base });
+    }
+    /// layer value j, made on first use from a clone of the retained configuration value: its own `ReconnectState`
+    fn ensure(&mut self, j: usize) -> bool {
+        if self.gone {
+            return false;
+        }
+        if !self.lays.contains_key(&j) {
+            let Some(cfg) = self.config.as_ref() else { return false };
+            let layer = ReconnectLayer::new(cfg.clone());
+            self.install(j, layer);
+        }
+        true
+    }
+    /// the state of layer value j as the application reads it: through the layer, through the service, or (default, and
+    /// always after dropsvc) through the `ReconnectState` handle it kept
+    fn with_state<R>(&mut self, j: usize, by: &str, f: impl FnOnce(&ReconnectState) -> R) -> R {
+        if self.ensure(j) {
+            let lay = &self.lays[&j];
+            match by {
+                "layer" => return f(lay.layer.state()),
+                "svc" => return f(lay.svc.state()),
+                _ => {}
+            }
+        }
+        // a layer value nobody made before every handle was dropped: a state that never saw a connection
+        let st = self.observers.entry(j).or_insert_with(ReconnectState::default);
+        f(st)
     }
 }
 
@@ -225,12 +400,15 @@ pub fn render<E: std::error::Error + 'static>(r: Result<Resp, E>) -> String {
 
 impl Mw for Adapter {
     fn arrive(&mut self, c: usize, kv: &Kv) -> Option<CallFut> {
-        let (Some(own), Some(layer)) = (self.svc.as_mut(), self.layer.as_ref()) else {
+        let j = kv.u64("lay", 0) as usize;
+        if !self.ensure(j) {
             log_raw("noop".into());
             return None;
-        };
+        }
         let req = Req::new(c, kv);
         self.chains.lock().unwrap().insert(c, causes_of(kv.get("inner").unwrap_or("0:ok")));
+        let chains = self.chains.clone();
+        let Lay { layer, svc: own, base } = self.lays.get_mut(&j).unwrap();
         let via = kv.str("via", "clone");
         // the handle the request is made through
         let fut = match via.as_str() {
@@ -250,8 +428,13 @@ impl Mw for Adapter {
                 let mut readied = std::mem::replace(own, fresh);
                 readied.call(req)
             }
-            "layer" => {
-                let mut svc = layer.layer(Chained { inner: Inner::new(), chains: self.chains.clone() });
+            "layer" | "layerclone" => {
+                // a service made on the spot by the layer value, or by a clone of it taken now (after services were built)
+                let mut svc = if via == "layer" {
+                    layer.layer(Chained { inner: base.clone(), chains })
+                } else {
+                    layer.clone().layer(Chained { inner: base.clone(), chains })
+                };
                 if !ready(&mut svc) {
                     log(format!("result {} notready", c));
                     return None;
@@ -270,7 +453,7 @@ impl Mw for Adapter {
         Some(held(fut, render))
     }
     fn requester(&self) -> Option<Requester> {
-        let template = self.svc.as_ref()?.clone();
+        let template = self.lays.get(&0)?.svc.clone();
         let chains = self.chains.clone();
         Some(std::rc::Rc::new(move |c: usize, kv: &Kv| {
             chains.lock().unwrap().insert(c, causes_of(kv.get("inner").unwrap_or("0:ok")));
@@ -282,24 +465,81 @@ impl Mw for Adapter {
             Some(held(svc.call(Req::new(c, kv)), render))
         }))
     }
-    fn manual(&mut self, what: &str, _kv: &Kv) {
-        if what == "dropsvc" && self.svc.is_some() {
-            log_raw(format!("#dropsvc {}", now_ms()));
-            self.svc = None;
-            self.layer = None;
-        }
-    }
-    fn probe(&mut self, what: &str, _kv: &Kv) {
+    fn manual(&mut self, what: &str, kv: &Kv) {
         match what {
-            "state" => {
-                let s = match self.state.state() {
-                    ConnectionState::Connected => "connected",
-                    ConnectionState::Disconnected => "disconnected",
-                    ConnectionState::Reconnecting => "reconnecting",
-                };
-                log(format!("probe state = {}", s));
+            "dropsvc" if !self.gone => {
+                log_raw(format!("#dropsvc {}", now_ms()));
+                self.lays.clear();
+                self.config = None;
+                self.gone = true;
+            }
+            "incr" => {
+                // the application bumps the shared attempts counter itself (`ReconnectState::increment_attempts`)
+                let j = kv.u64("lay", 0) as usize;
+                let n = self.with_state(j, kv.str("by", "obs").as_str(), |st| st.increment_attempts());
+                log(format!("probe incr{} = {}", sfx(j), n));
             }
             _ => {}
         }
+    }
+    fn probe(&mut self, what: &str, kv: &Kv) {
+        let j = kv.u64("lay", 0) as usize;
+        let by = kv.str("by", "obs");
+        match what {
+            "state" => {
+                let s = self.with_state(j, &by, |st| st.state());
+                log(format!("probe state{} = {}", sfx(j), state_name(s)));
+            }
+            "attempts" => {
+                let n = self.with_state(j, &by, |st| st.attempts());
+                log(format!("probe attempts{} = {}", sfx(j), n));
+            }
+            "since" => {
+                let d = self.with_state(j, &by, |st| st.time_since_connected());
+                let d = d.map(|d| d.as_millis().to_string()).unwrap_or("none".into());
+                log(format!("probe since{} = {}", sfx(j), d));
+            }
+            "config" | "delay" | "pred" => {
+                // through `ReconnectService::config()` of the service of layer value j (a clone of the configuration for j >= 1)
+                if !self.ensure(j) {
+                    log(format!("probe {} = gone", what));
+                    return;
+                }
+                let cfg = self.lays[&j].svc.config();
+                match what {
+                    "config" => {
+                        let pol = match cfg.policy() {
+                            ReconnectPolicy::None => "none",
+                            ReconnectPolicy::Fixed(_) => "fixed",
+                            ReconnectPolicy::Exponential(_) => "exp",
+                            ReconnectPolicy::ExponentialRandom(_) => "random",
+                            ReconnectPolicy::Custom(_) => "custom",
+                        };
+                        let max = cfg.max_attempts().map(|m| m.to_string()).unwrap_or("none".into());
+                        log(format!("probe config = max:{} retry:{} policy:{}", max, cfg.retry_on_reconnect() as u8, pol));
+                    }
+                    "delay" => {
+                        let a = kv.u64("a", 0);
+                        let d = cfg.policy().delay_for_attempt(a as usize);
+                        let d = d.map(|d| d.as_nanos().to_string()).unwrap_or("none".into());
+                        log(format!("probe delay a={} = {}", a, d));
+                    }
+                    _ => {
+                        let k = kv.u64("k", 0) as u8;
+                        let yes = cfg.should_reconnect(&CErr::new(k, 0, &[]));
+                        log(format!("probe pred k={} = {}", k, yes as u8));
+                    }
+                }
+            }
+            _ => {}
+        }
+    }
+}
+
+fn sfx(j: usize) -> String {
+    if j == 0 {
+        String::new()
+    } else {
+        format!("@{}", j)
     }
 }
